@@ -38,7 +38,7 @@ PROPS = {
         nontrivial=r"^(marg-(sorted|unsorted|stepwise)-[1-9]of[2-9]|err-)",
         rule="all shapes 1-3 axes x lengths 1..4 and 4 axes x 1..2 (thorough: 1-4 x 1..4, 5 x 1..3, 400 random up to 5 axes x 1..6) x all subsets of axes x all orders, "
              "odd integer data with distinct gaps (exact sums), one-at-a-time removal on the implementation, error streams (duplicate, out of range, 2^64-1, all axes, empty list); "
-             "non-trivial = distinct request removing >= 1 axis of a >= 2-axis spectrum, or an error case 60 (thorough 600) `hist.scs` call histories; size sweeps (one axis of every length up to 130, thorough 400, next to short ones; 6-8 short axes). Round 6: `sfs view -m AXES` / `-M KEEP` through the binary on 2-5 axes, keep lists with repeated and unknown axes, duplicate remove lists (adjacent and not). Round 7: axes of 257, 258, 300, 401, 513, 640, 1025, 2049 entries.",
+             "non-trivial = distinct request removing >= 1 axis of a >= 2-axis spectrum, or an error case 60 (thorough 600) `hist.scs` call histories; size sweeps (one axis of every length up to 130, thorough 400, next to short ones; 6-8 short axes). Round 6: `sfs view -m AXES` / `-M KEEP` through the binary on 2-5 axes, keep lists with repeated and unknown axes, duplicate remove lists (adjacent and not). Round 7: axes of 257, 258, 300, 401, 513, 640, 1025, 2049 entries. Round 10: every shape of >= 2 axes also with entries that are not counts (negative, -0.0, zero; every other round NaN and +-inf), every axis subset, at once and stepwise.",
         exhaustive=True,
         assumptions=["integer data below 2^53: binary64 sums are exact and compared exactly"],
     ),
@@ -48,7 +48,7 @@ PROPS = {
         rule="real `sfs view -O npy` binary on 40 (thorough 400) random non-negative count spectra with 1-4 axes x all 2^4 option subsets "
              "(marginalize via -m or -M, project via --project-shape or -p, --mask-monomorphic, -n; 1/12 of marginalization / projection arguments inadmissible), "
              "single invocation and the four-stage chain piped through npy, compared with viewRun in exact rationals within 2^-30 relative; a quarter of the cases also as text at precision 0/1/3/6/12/15 (header line exact, one token per entry with exactly p decimals, each within half a printed unit + 2^-30 relative of the model value); "
-             "non-trivial = distinct request with at least one option set, or an error case A fifth of the inputs are on frequency scale already (dyadic fractions summing to exactly one), a tenth sum to one only between the corners, a tenth are zero except the corners. A fifth of the inputs have monomorphic cells of 2^52 / 2^53 / 1e18 / 1e300 next to single-digit interior counts. Round 6: keep lists naming an axis twice (adjacent or not) or an axis the spectrum does not have. Round 7: text outputs of 100 KiB and more through `view`, plain / masked / normalised. Round 8: -n and --mask-monomorphic -n on 65537 / 66049 (thorough 100001) entries. Round 9: text -> npy -> text of 16-18 digit tokens and whole numbers beyond 2^40 at 17 / 16 / 18 / 6 / 9 decimals.",
+             "non-trivial = distinct request with at least one option set, or an error case A fifth of the inputs are on frequency scale already (dyadic fractions summing to exactly one), a tenth sum to one only between the corners, a tenth are zero except the corners. A fifth of the inputs have monomorphic cells of 2^52 / 2^53 / 1e18 / 1e300 next to single-digit interior counts. Round 6: keep lists naming an axis twice (adjacent or not) or an axis the spectrum does not have. Round 7: text outputs of 100 KiB and more through `view`, plain / masked / normalised. Round 8: -n and --mask-monomorphic -n on 65537 / 66049 (thorough 100001) entries. Round 9: text -> npy -> text of 16-18 digit tokens and whole numbers beyond 2^40 at 17 / 16 / 18 / 6 / 9 decimals. Round 10: `c13.views` — the input arriving on stdin in two bursts (first burst 1, 2, 3, 5, 7, 64 or 129 bytes), synchronised on the child's blocking read through /proc.",
         exhaustive=False,
         assumptions=["numeric agreement within 2^-30*(|q| + scale): projection and normalisation are evaluated in binary64 by the implementation"],
         
@@ -76,7 +76,7 @@ PROPS = {
         rule="exhaustive: all 26 maps of 3 columns into <= 2 populations x all 64 records over {0,1,2,missing}^3 (in-process); random: 1-4 populations of unequal size, 2-12 (thorough 40) columns, "
              "any subset listed in any order, named/unnamed mix, 1-30 (thorough 300) records over called/missing/multiallelic/ploidy-error genotypes with 'only an unselected sample is bad' forced in 10%, "
              "two contigs, extra INFO/FORMAT fields; 300 in-process + 50 CLI (thorough 3000 + 400) over vcf/vcf.gz/bcf/raw bcf; stdout compared byte for byte (precision forced to 0); "
-             "non-trivial = distinct request with >= 2 populations, or with both counted and skipped records, or a failing run Positions repeat (a third of the records share contig:position with their predecessor). Byte level (`ct.create`): a third of the CLI cases are also decoded from their container bytes by the model (Inflate / Bgzf / Vcf / Bcf models) instead of being handed over in the harness's notation. Every CLI run carries a log verbosity derived from its arguments (none / -v / -vv / -vvv). INFO-rich call sets carry AC / AN values that are deliberately out of step with the genotypes. Round 6: a third of the CLI call sets use sample names and labels with blanks; VCF-bound call sets carry allele indices 256 / 257 / 65536 / 2^32 (truncation to a narrower integer). Round 7: BGZF layouts with a leading empty block, a two-byte first block, and VCF text without final newline cut inside its last line rotate through the CLI and byte-level cases. Round 8: a third of the CLI call sets again under --strict with the listed samples complete and the unlisted ones incomplete. Round 9: ten populations of one sample each (59049 cells, a value line beyond 64 KiB).",
+             "non-trivial = distinct request with >= 2 populations, or with both counted and skipped records, or a failing run Positions repeat (a third of the records share contig:position with their predecessor). Byte level (`ct.create`): a third of the CLI cases are also decoded from their container bytes by the model (Inflate / Bgzf / Vcf / Bcf models) instead of being handed over in the harness's notation. Every CLI run carries a log verbosity derived from its arguments (none / -v / -vv / -vvv). INFO-rich call sets carry AC / AN values that are deliberately out of step with the genotypes. Round 6: a third of the CLI call sets use sample names and labels with blanks; VCF-bound call sets carry allele indices 256 / 257 / 65536 / 2^32 (truncation to a narrower integer). Round 7: BGZF layouts with a leading empty block, a two-byte first block, and VCF text without final newline cut inside its last line rotate through the CLI and byte-level cases. Round 8: a third of the CLI call sets again under --strict with the listed samples complete and the unlisted ones incomplete. Round 9: ten populations of one sample each (59049 cells, a value line beyond 64 KiB). Round 10: the shared record generator makes one record in eight fixed within every population and one in twelve a no-ALT record with exactly one odd column (missing, partly missing, a reference call of another ploidy).",
         exhaustive=True, assumptions=["in-process cases drive the real site::Reader through an in-memory genotype::Reader; CLI cases run the real binary on generated VCF text / BCF (noodles writer, or a hand-written BCF2.2 encoder for mixed ploidy) / BGZF", "noodles (VCF/BCF/BGZF parsing), clap and env_logger are exercised, not modelled"],
     ),
     "C02": dict(
@@ -95,7 +95,7 @@ PROPS = {
         nontrivial=r"^(c08|ct)-cli-",
         rule="every GT string over alleles {., 0, 1, 2, 3, 10} x separators {/,|} x ploidy 1-2 (all 78) and ploidy 3 (60 sampled; thorough all 864, plus allele 62/255/2^31 in VCF), placed in a selected column, "
              "an unselected column, or with all columns selected, through the VCF text path and the BCF binary path (mixed-ploidy GT vectors with end-of-vector padding), followed by a second record; "
-             "observed: exit status, stdout bytes, skipped summary, error site 'contig:pos'; non-trivial = every distinct request (finite alphabet) Quick covers every triploid string over {., 0, 1} and tetraploid / pentaploid all-missing strings; every GT string is also placed in real VCF text / BCF int8 vectors that the container model decodes itself (`ct.create`). Plus records in which every sample has the same other ploidy (all haploid, all triploid, all-missing tetraploid) after and before diploid records, selected / unselected / all columns, VCF, BCF and byte level. Round 6: allele indices 256 … 2^32+1 and the edges of the GT grammar (leading separator, `+1`, index 2^64-1 / 2^64, empty alleles, lone separators) in VCF text. Round 7: BCF / VCF headers with IDX attributes out of line order and records on two contigs with a ploidy error (the error must name the record's contig). Round 8: every generated VCF spells the first ALT allele of the records at positions 5 mod 11 as `*`.",
+             "observed: exit status, stdout bytes, skipped summary, error site 'contig:pos'; non-trivial = every distinct request (finite alphabet) Quick covers every triploid string over {., 0, 1} and tetraploid / pentaploid all-missing strings; every GT string is also placed in real VCF text / BCF int8 vectors that the container model decodes itself (`ct.create`). Plus records in which every sample has the same other ploidy (all haploid, all triploid, all-missing tetraploid) after and before diploid records, selected / unselected / all columns, VCF, BCF and byte level. Round 6: allele indices 256 … 2^32+1 and the edges of the GT grammar (leading separator, `+1`, index 2^64-1 / 2^64, empty alleles, lone separators) in VCF text. Round 7: BCF / VCF headers with IDX attributes out of line order and records on two contigs with a ploidy error (the error must name the record's contig). Round 8: every generated VCF spells the first ALT allele of the records at positions 5 mod 11 as `*`. Round 10: every other GT string is followed by records at the same contig and position.",
         exhaustive=True, assumptions=["in-process cases drive the real site::Reader through an in-memory genotype::Reader; CLI cases run the real binary on generated VCF text / BCF (noodles writer, or a hand-written BCF2.2 encoder for mixed ploidy) / BGZF", "noodles (VCF/BCF/BGZF parsing), clap and env_logger are exercised, not modelled"] + ["GT '.' (whole field missing) is a missing genotype (interpretation fixed by commit b7debed)"],
     ),
     "C09": dict(
@@ -104,7 +104,7 @@ PROPS = {
         nontrivial=r"^c09-cli-",
         rule="150 (thorough 1500) call sets x sample lists (subset, random order, named/unnamed mix) given inline (-s) and as a file (-S), 3 permutations of list entries, 3 permutations of the input columns "
              "(VCF and BCF), plus error lists (absent sample, empty file, sample listed twice with different labels); every variant compared with the model, whose invariance under these transformations is proved; "
-             "non-trivial = every distinct request A third of the call sets use sample names and labels with blanks, punctuation, shared first words, a label that is a prefix of another, an empty label, non-ASCII letters. A quarter of the call sets also pass the list through a named pipe as the samples file. Every fifth call set puts haploid / triploid / tetraploid genotypes into the unlisted columns. Round 6: samples files with CR LF line endings (after every line / between lines only). Round 7: every sixth call set has a record with a skipped and a non-diploid listed sample (fails whatever the column / list order). Round 8: a samples file whose last line is not valid UTF-8 must fail the run. Round 9: an empty label next to an unlabelled sample, blank list items, inline and by file.",
+             "non-trivial = every distinct request A third of the call sets use sample names and labels with blanks, punctuation, shared first words, a label that is a prefix of another, an empty label, non-ASCII letters. A quarter of the call sets also pass the list through a named pipe as the samples file. Every fifth call set puts haploid / triploid / tetraploid genotypes into the unlisted columns. Round 6: samples files with CR LF line endings (after every line / between lines only). Round 7: every sixth call set has a record with a skipped and a non-diploid listed sample (fails whatever the column / list order). Round 8: a samples file whose last line is not valid UTF-8 must fail the run. Round 9: an empty label next to an unlabelled sample, blank list items, inline and by file. Round 10: population labels that contain `=` themselves (only the first `=` of a --samples item separates name from label).",
         exhaustive=False, assumptions=["in-process cases drive the real site::Reader through an in-memory genotype::Reader; CLI cases run the real binary on generated VCF text / BCF (noodles writer, or a hand-written BCF2.2 encoder for mixed ploidy) / BGZF", "noodles (VCF/BCF/BGZF parsing), clap and env_logger are exercised, not modelled"],
     ),
     "C10": dict(
@@ -112,14 +112,14 @@ PROPS = {
         nontrivial=r"^(c10|ct)-cli-|^mass-",
         rule="40 (thorough 400) record streams of length 1-8 x {non-strict, strict} x a fault (ploidy error in a selected column, a site that would be skipped, a corrupt POS field, a truncated line) inserted at every "
              "position 0..len (half of them in quick), with projection in a third of the streams; checked: exit status, stdout empty on failure, 'Skipped X/Y' parsed and X + mass = Y via the model, error names "
-             "contig:pos of the first offending record; non-trivial = every distinct request Half of the streams repeat contig:position in consecutive records (counted and skipped ones); a third of the fault streams are also decoded from their VCF / BCF bytes by the container model (`ct.create`), incl. the corrupt-line kinds. One (thorough two) 600-sample stream under projection through the binary (all-heterozygous, one missing, half / half, three quarters missing). Round 6: the corrupt-line faults rotate over records whose ID / QUAL / FILTER / INFO column the VCF grammar refuses. Round 7: `c10.mass` runs (see C02). Round 8: -q / -qq rotate with -v / -vv / -vvv on every strict run.",
+             "contig:pos of the first offending record; non-trivial = every distinct request Half of the streams repeat contig:position in consecutive records (counted and skipped ones); a third of the fault streams are also decoded from their VCF / BCF bytes by the container model (`ct.create`), incl. the corrupt-line kinds. One (thorough two) 600-sample stream under projection through the binary (all-heterozygous, one missing, half / half, three quarters missing). Round 6: the corrupt-line faults rotate over records whose ID / QUAL / FILTER / INFO column the VCF grammar refuses. Round 7: `c10.mass` runs (see C02). Round 8: -q / -qq rotate with -v / -vv / -vvv on every strict run. Round 10: 2600-record VCF text with an empty body line whose line feed is byte 65536, 65536 + 8192 or an unaligned offset (path, stdin, --strict): the run must fail with nothing written.",
         exhaustive=True, assumptions=["in-process cases drive the real site::Reader through an in-memory genotype::Reader; CLI cases run the real binary on generated VCF text / BCF (noodles writer, or a hand-written BCF2.2 encoder for mixed ploidy) / BGZF", "noodles (VCF/BCF/BGZF parsing), clap and env_logger are exercised, not modelled"] + ["for a corrupt record the reported position is not compared (noodles' reader state), only the error kind, exit status and empty stdout"],
     ),
     "C11": dict(
         theorems=["readSite_eq_spec", "readSite_lengths", "readSite_stateless", "run_eq_sum", "run_append", "run_perm"],
         nontrivial=r"^c11-(mem-.*(SP|SI|PI|SPI)|cli-)",
         rule="all 64 ordered pairs (predecessor kind, successor kind) of eight site kinds (complete, exactly sufficient through a missing / a multiallelic sample, insufficient in either population, complete with other counts, every selected sample uncalled, every sample uncalled) x 4 projection settings; 120 (thorough 1000) random sequences of 2-12 records x every split point (both parts) x 5 (thorough 20) "
-             "permutations, in-process with the per-record site kind sequence compared item by item; CLI on concatenated / permuted VCF and BCF; non-trivial = distinct request mixing at least two site kinds Every ordered pair also at one shared contig:position; odd sequences consist of runs of records sharing a position. Plus cohorts of 90-130 samples under projection whose called totals go up and down along the stream: whole, every split point, permutations, reversed. CLI streams also contain records whose FORMAT has no GT key, spliced after the first record, in the middle and at the end. Round 6: streams with one record spliced in (front, second, end) whose INFO / ID / QUAL / FILTER column is refused.",
+             "permutations, in-process with the per-record site kind sequence compared item by item; CLI on concatenated / permuted VCF and BCF; non-trivial = distinct request mixing at least two site kinds Every ordered pair also at one shared contig:position; odd sequences consist of runs of records sharing a position. Plus cohorts of 90-130 samples under projection whose called totals go up and down along the stream: whole, every split point, permutations, reversed. CLI streams also contain records whose FORMAT has no GT key, spliced after the first record, in the middle and at the end. Round 6: streams with one record spliced in (front, second, end) whose INFO / ID / QUAL / FILTER column is refused. Round 10: fixed-difference records (one population fixed for ALT, the other for REF; fixed for ALT everywhere) among the record kinds of the exhaustive pairs and the random sequences.",
         exhaustive=True, assumptions=["in-process cases drive the real site::Reader through an in-memory genotype::Reader; CLI cases run the real binary on generated VCF text / BCF (noodles writer, or a hand-written BCF2.2 encoder for mixed ploidy) / BGZF", "noodles (VCF/BCF/BGZF parsing), clap and env_logger are exercised, not modelled"],
     ),
     "C12": dict(
@@ -129,7 +129,7 @@ PROPS = {
         nontrivial=r"^(c12-same|ct-cli)",
         rule="12 (thorough 60) call sets (up to 3000 records, with/without projection and sample lists, one ending in a ploidy error) each run as {vcf, vcf.gz, bcf, raw bcf} x {path, stdin} x threads {1,3,16} "
              "(thorough 1,2,3,4,8,16) x BGZF layouts (one line per block, random cuts incl. mid-line, interleaved empty blocks; thorough also single block / 9 even cuts) x 2 (thorough 3) repeated executions: "
-             "all stdout bytes and exit classes must be identical, and equal to the model's output; non-trivial = every distinct call set (each stands for 64-200 executions) Each call set is additionally read from a named pipe given as the input path (first write of 1 / 2 / 20 bytes). Byte level (`ct.create`): 40 container files (flate2-compressed BGZF, noodles-written BCF) are decoded by the model's own inflate / BGZF / VCF / BCF decoders, and 36 container files *written by the model's encoders* (stored-block BGZF with block payloads of 1 ... 65280 bytes, plain VCF, BCF) are read by the binary: outcome = createCli of the decoded call set in both directions. A quarter of the call sets carry 126 / 197 / 266 INFO definitions ahead of FORMAT/GT (16-bit FORMAT keys in BCF). Every seventh record carries a reference allele of 16 / 130 / 300 bases (BCF typed strings with inline, 8-bit and 16-bit lengths). BGZF layouts without the end-of-file marker block and with an empty stored block in its place. Round 6: every eighth call set declares INFO fields after FORMAT/GT in the header (dictionary order of appearance, F36). Round 7: IDX-attribute headers (every eighth call set); layout variants for the ends of the stream (see C01). Round 8: one (thorough three) projected run of 1500+ records x 14 samples with hundreds of site classes at 17 decimals.",
+             "all stdout bytes and exit classes must be identical, and equal to the model's output; non-trivial = every distinct call set (each stands for 64-200 executions) Each call set is additionally read from a named pipe given as the input path (first write of 1 / 2 / 20 bytes). Byte level (`ct.create`): 40 container files (flate2-compressed BGZF, noodles-written BCF) are decoded by the model's own inflate / BGZF / VCF / BCF decoders, and 36 container files *written by the model's encoders* (stored-block BGZF with block payloads of 1 ... 65280 bytes, plain VCF, BCF) are read by the binary: outcome = createCli of the decoded call set in both directions. A quarter of the call sets carry 126 / 197 / 266 INFO definitions ahead of FORMAT/GT (16-bit FORMAT keys in BCF). Every seventh record carries a reference allele of 16 / 130 / 300 bases (BCF typed strings with inline, 8-bit and 16-bit lengths). BGZF layouts without the end-of-file marker block and with an empty stored block in its place. Round 6: every eighth call set declares INFO fields after FORMAT/GT in the header (dictionary order of appearance, F36). Round 7: IDX-attribute headers (every eighth call set); layout variants for the ends of the stream (see C01). Round 8: one (thorough three) projected run of 1500+ records x 14 samples with hundreds of site classes at 17 decimals. Round 10: structured records of the shared generator (fixed within populations; no ALT allele with one odd column, including reference calls of another ploidy).",
         exhaustive=False, assumptions=["in-process cases drive the real site::Reader through an in-memory genotype::Reader; CLI cases run the real binary on generated VCF text / BCF (noodles writer, or a hand-written BCF2.2 encoder for mixed ploidy) / BGZF", "noodles (VCF/BCF/BGZF parsing), clap and env_logger are exercised, not modelled"] + ["thread scheduling, OS pipes and hash seeds are runtime behaviour: explored by repetition, not proved"],
     ),
 }
@@ -148,7 +148,7 @@ PROPS.update({
              "read back compared with readText (f64::from_str vs parseF64, bit for bit); 2500 (thorough 50000) single values formatted, 1650 (thorough 20000) decimal strings parsed incl. a malformed stream; "
              "format detection on prefixes; 40 (thorough 400) CLI chains `sfs view -O {npy,text} --precision p` to a pipe or a file, read by view / fold / stat with auto-detection; "
              "40 (thorough 300) text -> npy -> text chains at equal precision (clause checked on the model for <= 15 significant digits); "
-             "non-trivial = distinct request other than a 1-axis spectrum without special values, a non-finite single value or an undetected prefix Plus shapes whose npy header is 64-aligned before padding (20-22 axes) and spectra of 8192 / 8193 / 9261 / 10201 / 16385 values, in-process and through pipes / files. Plus readers whose stdin delivers the file in two pieces with a pause, cut inside the header, at its end, inside a value and at a value boundary (io.pipe split<k>). Spectra also reach the readers through a named pipe given as input PATH; npy spectra of more than 128 integer counts without any 0x0a byte are piped. Round 6: files given by PATH carry rotating extensions (.npy .txt .sfs .NPY .saf.npy .npy.txt .gz) whatever format they hold. Round 7: text outputs of 100 KiB and more (21x21x21, 9500 entries). Round 8: text at 18 … 400 decimals with values down to 4.9e-324.",
+             "non-trivial = distinct request other than a 1-axis spectrum without special values, a non-finite single value or an undetected prefix Plus shapes whose npy header is 64-aligned before padding (20-22 axes) and spectra of 8192 / 8193 / 9261 / 10201 / 16385 values, in-process and through pipes / files. Plus readers whose stdin delivers the file in two pieces with a pause, cut inside the header, at its end, inside a value and at a value boundary (io.pipe split<k>). Spectra also reach the readers through a named pipe given as input PATH; npy spectra of more than 128 integer counts without any 0x0a byte are piped. Round 6: files given by PATH carry rotating extensions (.npy .txt .sfs .NPY .saf.npy .npy.txt .gz) whatever format they hold. Round 7: text outputs of 100 KiB and more (21x21x21, 9500 entries). Round 8: text at 18 … 400 decimals with values down to 4.9e-324. Round 10: 512 npy files whose last entry has most significant byte b and whose first entry has least significant byte b (b = 0..255) through the real read::Builder.",
         exhaustive=False, assumptions=IO_ASSUME,
     ),
     "C15": dict(
@@ -171,7 +171,7 @@ PROPS.update({
         rule="20 (thorough 200) valid npy files written by the implementation: every truncation offset 0..len-1 and every extension 1..16 (zeros and random bytes) through Array::read_npy (exhaustive per file), "
              "a sample of offsets (header boundaries, value boundaries +-1, every 29th) through read::Builder with auto-detection and through the binary (view / fold / stat: exit status 1 and empty stdout required); "
              "25 (thorough 120) text files: every single-token removal and insertion, every axis edited (+1, -1, x2, +2^32), axis dropped / added, overflowing and zero-masked overflowing shapes, missing value line, tabs/newlines as separators, a non-numeric token; "
-             "non-trivial = distinct damaged input that the model rejects Plus npy files of 4096 / 8192 / 64x64 / 128x32 values (thorough also 4095, 4097, 1024, 2048, 3x4096) extended by 1 / 8 / 9 / 4096 bytes and by a whole second copy, and truncated. Every CLI damage case also runs with the input given as a PATH to a regular file and with `view -O npy`; text spectra in the spellings other tools produce (CRLF, blank lines, leading / trailing blanks, exponent / signed / bare-dot numbers, byte-order mark). Round 7: files refused for what their header says (Fortran order, unsupported element types), whole / cut at item boundaries / extended.",
+             "non-trivial = distinct damaged input that the model rejects Plus npy files of 4096 / 8192 / 64x64 / 128x32 values (thorough also 4095, 4097, 1024, 2048, 3x4096) extended by 1 / 8 / 9 / 4096 bytes and by a whole second copy, and truncated. Every CLI damage case also runs with the input given as a PATH to a regular file and with `view -O npy`; text spectra in the spellings other tools produce (CRLF, blank lines, leading / trailing blanks, exponent / signed / bare-dot numbers, byte-order mark). Round 7: files refused for what their header says (Fortran order, unsupported element types), whole / cut at item boundaries / extended. Round 10: `io.cmds` — a valid npy / text file followed by more bytes (or cut short), the input split into two bursts exactly where the valid file ends (or inside magic string / header / a value).",
         exhaustive=True, assumptions=IO_ASSUME,
     ),
     "C18": dict(
@@ -215,7 +215,7 @@ PROPS.update({
         nontrivial=r"^strel-",
         rule="200 (thorough 3000) count spectra with 1-4 axes of unequal length (and 3x3): for every applicable statistic the value on x and on T(x) for T in {fold with fill zero (library and `sfs fold --fill zero | sfs stat`), "
              "replace the two monomorphic entries by random values, multiply by a constant in {2, 0.5, 3, 0.1, 1000, 7.25, 0.001}, swap the two populations}, and f3 / f4 against the f2 combination of the marginals computed with the real marginalize; "
-             "both values compared with the model, and the relation itself re-checked on the model values in exact arithmetic (a relation failing there is reported as a model-level violation); non-trivial = every distinct request Plus `sfs stat` invocations computing all applicable statistics together in random order (and count-based next to frequency-based pairs) on x, c*x and x with other monomorphic entries. Plus `monoip`: total and statistic queried, the two monomorphic cells overwritten in place through IndexMut on the same object, statistic queried again (every statistic). 150 (thorough 1500) `hist.scs` call histories on one spectrum object. Scale constants range from 1e-290 to 1e280 (the two D statistics up to 1e100). Round 6: the relations on spectra with 1025-4100 entries (1-D, 33x33, 40x30, 11x11x11, 6^4). Round 8: monomorphic entries of 1e18 / 2^62 under fst, king, r0, r1. Round 9: monomorphic cells of 2^53 / 1e18 under S, pi, theta, Tajima's D, pi_xy; the tolerance scale of S / pi / theta is the polymorphic mass alone.",
+             "both values compared with the model, and the relation itself re-checked on the model values in exact arithmetic (a relation failing there is reported as a model-level violation); non-trivial = every distinct request Plus `sfs stat` invocations computing all applicable statistics together in random order (and count-based next to frequency-based pairs) on x, c*x and x with other monomorphic entries. Plus `monoip`: total and statistic queried, the two monomorphic cells overwritten in place through IndexMut on the same object, statistic queried again (every statistic). 150 (thorough 1500) `hist.scs` call histories on one spectrum object. Scale constants range from 1e-290 to 1e280 (the two D statistics up to 1e100). Round 6: the relations on spectra with 1025-4100 entries (1-D, 33x33, 40x30, 11x11x11, 6^4). Round 8: monomorphic entries of 1e18 / 2^62 under fst, king, r0, r1. Round 9: monomorphic cells of 2^53 / 1e18 under S, pi, theta, Tajima's D, pi_xy; the tolerance scale of S / pi / theta is the polymorphic mass alone. Round 10: for sum, S, pi and theta also a power-of-two scale that lifts the total to just below 2^1024.",
         exhaustive=False, assumptions=ST_ASSUME + ["swapping, scaling and replacing entries are done by the harness on the data (there is no sfs operation for them); folding and marginalisation use the real code"],
     ),
 })
